@@ -352,34 +352,11 @@ def leaf_zoo(rng, n):
 
 
 def search(hints, tier, rng):
-    """Round-trip oracle on the real objects at the boundary-directed set."""
+    """Round-trip oracle on the real objects at the boundary-directed set.  Cheap, targeted stages first; the search stops after the
+    first stage that yields a witness (the expensive whole-flow stage last)."""
     wit = []
-    # whole premade flows from the factories: structure, round trips of flow.bijection, Scan vs Chain of the unstacked layers
-    from props import flows
-    for w in flows.search_flows(tier, rng):
-        w.setdefault("tokens", ["FLOW", w.get("desc", "")])
-        w.setdefault("tree", w.get("desc", "")); w.setdefault("x", None)
-        wit.append(w)
-    if len(wit) >= 5:
-        return wit[:5]
-    # stacks of distinct layers (every premade flow's layer stack is a Scan)
-    for name, scan, cd in scan_objects(rng):
-        cond = jnp.asarray([rng.uniform(-1, 1) for _ in range(cd)]) if cd else None
-        xs = [[rng.uniform(-1.5, 1.5) for _ in range(3)] for _ in range(3)]
-        for w in roundtrip_violations(scan, "Scan:" + name, xs, cond=cond, eps=1e-9):
-            w["tokens"] = ["SCAN", name]
-            wit.append(w)
-            if len(wit) >= 5:
-                return wit
     from props import oracles
-    skip = ("forward log-det", "inverse log-det", "Planar computes")      # C02's / C07's clauses
-    for w in (oracles.planar_violations(rng, 40 if tier == "quick" else 400, slopes=(None, 0.1, 0.5, 1.0)) + oracles.net_violations(rng, tier)
-              + oracles.nested_invert_violations(rng, 3)):
-        if not w["law"].startswith(skip):
-            wit.append(w)
-    if len(wit) >= 5:
-        return wit[:5]
-    # elementary leaves far out in their tails, at a TIGHT tolerance (3 orders above float64 rounding): a "large-input fast path"
+    # 1. elementary leaves far out in their tails, at a TIGHT tolerance (3 orders above float64 rounding): a "large-input fast path"
     # (e.g. softplus^-1(y) := y for y > 20) is wrong by ~exp(-y), far below the generic tolerance used for whole trees
     for obj, desc, toks, pts in [(B.SoftPlus(), "P:P", ["P"], [20.5, 22.0, 25.0, 30.0, 33.5, -20.5, -30.0]),
                                  (B.Exp(), "E:E", ["E"], [20.5, -20.5, 30.0]),
@@ -390,6 +367,9 @@ def search(hints, tier, rng):
             wit.append(w)
             if len(wit) >= 5:
                 return wit
+    if wit:
+        return wit
+    # 2. random leaves at their boundary-directed inputs
     for obj, desc, bnd, toks in leaf_zoo(rng, 150 if tier == "quick" else 1000):
         inputs = list(dict.fromkeys([float(v) for v in bnd] + fj.generic_inputs(rng, 3)))
         # Exp/Tanh/SoftPlus have restricted codomains: only probe the forward direction's law plus in-range inverses
@@ -398,7 +378,34 @@ def search(hints, tier, rng):
             wit.append(w)
             if len(wit) >= 5:
                 return wit
-    return wit
+    if wit:
+        return wit
+    # 3. planar / conditioner-network bijections / nested Invert
+    skip = ("forward log-det", "inverse log-det", "Planar computes")      # C02's / C07's clauses
+    for w in (oracles.planar_violations(rng, 40 if tier == "quick" else 400, slopes=(None, 0.1, 0.5, 1.0)) + oracles.net_violations(rng, tier)
+              + oracles.nested_invert_violations(rng, 3)):
+        if not w["law"].startswith(skip):
+            wit.append(w)
+    if wit:
+        return wit[:5]
+    # 4. stacks of distinct layers (every premade flow's layer stack is a Scan)
+    for name, scan, cd in scan_objects(rng):
+        cond = jnp.asarray([rng.uniform(-1, 1) for _ in range(cd)]) if cd else None
+        xs = [[rng.uniform(-1.5, 1.5) for _ in range(3)] for _ in range(3)]
+        for w in roundtrip_violations(scan, "Scan:" + name, xs, cond=cond, eps=1e-9):
+            w["tokens"] = ["SCAN", name]
+            wit.append(w)
+            if len(wit) >= 5:
+                return wit
+    if wit:
+        return wit
+    # 5. whole premade flows from the factories: structure, round trips of flow.bijection, Scan vs Chain of the unstacked layers
+    from props import flows
+    for w in flows.search_flows(tier, rng):
+        w.setdefault("tokens", ["FLOW", w.get("desc", "")])
+        w.setdefault("tree", w.get("desc", "")); w.setdefault("x", None)
+        wit.append(w)
+    return wit[:5]
 
 
 def rebuild(tokens):
